@@ -51,7 +51,9 @@ pub fn gen_head(rng: &Rng, max: usize, wild: bool) -> Vec<u8> {
     let mut h = field(rng, max, alpha, wild);
     if wild && rng.chance(1, 60) {
         // a header of several hundred bytes with multi-byte and invalid UTF-8 sequences
-        let n = rng.range(200, 700);
+        // now and then far beyond that (4 KiB and 64 KiB: fixed-size id buffers, u16 lengths)
+        let n = if rng.chance(1, 10) { *rng.pick(&[rng.range(4090, 4110), rng.range(5000, 9000), rng.range(65530, 66000)]) } else { rng.range(200, 700) };
+        let spaces = n < 1000 || rng.chance(1, 2);
         h = (0..n)
             .map(|_| match rng.below(12) {
                 0 => 0xc3,
@@ -60,7 +62,7 @@ pub fn gen_head(rng: &Rng, max: usize, wild: bool) -> Vec<u8> {
                 3 => 0x82,
                 4 => 0xac,
                 5 => 0xff,
-                6 if rng.chance(1, 40) => b' ',
+                6 if spaces && rng.chance(1, 40) => b' ',
                 _ => *rng.pick(b"abcXYZ019_"),
             })
             .collect();
@@ -509,7 +511,7 @@ pub fn storm_cfg(rng: &Rng) -> Cfg {
         faults: vec![],
         // sometimes a long run of consecutive interruptions on top (retry budgets)
         intr_burst: if rng.chance(1, 2) { Some((rng.range(0, 40), rng.range(200, 2500))) } else { None },
-        lift: None,
+        lift: None, pause: None,
     }
 }
 
@@ -661,7 +663,7 @@ pub fn gen_cfg(rng: &Rng, input: &[u8], interrupts: bool) -> Cfg {
         cuts: gen_cuts(rng, input),
         intr_burst: if interrupts && rng.chance(1, 40) { Some((rng.small(12), rng.range(7, 40))) } else { None },
         faults: vec![],
-        lift: None,
+        lift: None, pause: None,
     }
 }
 
